@@ -13,6 +13,8 @@ mod formatters;
 mod shape;
 mod sort_requires;
 mod verify_ast;
+#[cfg(feature = "verif")]
+pub mod verif;
 
 /// The Lua syntax version to use
 #[derive(Debug, Default, Copy, Clone, PartialEq, Eq, Deserialize)]
@@ -385,6 +387,8 @@ pub fn format_code(
     range: Option<Range>,
     verify_output: OutputVerification,
 ) -> Result<String, Error> {
+    #[cfg(feature = "verif")]
+    verif::maybe_inject_panic(code);
     let input_ast = match full_moon::parse_fallible(code, config.syntax.into()).into_result() {
         Ok(ast) => ast,
         Err(error) => {
